@@ -64,7 +64,65 @@ class Runner:
             out.append([[w(c) for c in t.children], t.count, t.count_unique])
         return out
 
+    def step_impl_only(self, op) -> Step:
+        """after model and implementation have diverged (`dead`): the operation is applied to the implementation alone and
+        only the oracles that need no model are evaluated — the search for a concrete failing history goes on from the
+        diverged state"""
+        s = Step()
+        s.op = op
+        s.mop = {}
+        s.model_res = None
+        s.problems = []
+        s.src_obj = s.tgt_obj = None
+        s.pre = self.snapshot()
+        try:
+            if "sp" in op and "st" in op:
+                s.src_obj = self.impl.node(op["st"], op["sp"])
+            elif op["op"] in ("w.addtree", "w.copy"):
+                s.src_obj = self.impl.trees[op["st"]].system_root
+            if "p" in op and "t" in op:
+                s.tgt_obj = self.impl.node(op["t"], op["p"])
+        except Exception:  # noqa
+            pass
+        if (op["op"] == "w.sort" and isinstance(op.get("key"), dict)) or op["op"] == "w.filter":
+            op["_bij"] = self.bij
+        old = set()
+
+        def ids_of(snap):
+            for t in snap:
+                stack = list(t[0])
+                while stack:
+                    w = stack.pop()
+                    old.add(w[0])
+                    stack.extend(w[6])
+
+        ids_of(s.pre)
+        try:
+            s.impl_res = self.impl.apply(op)
+        except Exception as e:  # noqa  (an operation that needs the model's numbering)
+            s.impl_res = "harness:" + type(e).__name__
+        s.post = self.snapshot()
+        s.changed = s.pre != s.post
+        s.new_objs = [n for t in self.impl.trees for n in t if id(n) not in old]
+        s.oracles = {}
+        s.n_nodes = sum(t.count for t in self.impl.trees)
+        if self.oracles:
+            for ti in range(len(self.impl.trees)):
+                try:
+                    o = world.oracle_structure(self.impl, ti, self.bij, self.pool, self.drv)
+                except core.MachineryError:
+                    raise
+                except Exception as e:  # noqa
+                    o = {"registry": [f"the tree can no longer be observed: {e!r}"]}
+                for k, v in o.items():
+                    s.oracles.setdefault(k, [])
+                    s.oracles[k] += [f"T{ti} {x}" for x in v]
+        self.log.append(clean(op))
+        return s
+
     def step(self, op) -> Step:
+        if self.dead:
+            return self.step_impl_only(op)
         s = Step()
         s.op = op
         if (op["op"] == "w.sort" and isinstance(op.get("key"), dict)) or op["op"] == "w.filter":
